@@ -1,0 +1,7 @@
+//go:build !verif
+
+package database
+
+func verifEvent(point string, args ...any) {}
+
+func verifYield(point string) {}
